@@ -71,9 +71,11 @@ Proof.
   intros name rotnum append compress force d Hcap Hrot.
   unfold rotates in Hrot. unfold rotate. rewrite Hrot.
   apply andb_true_iff in Hrot. destruct Hrot as [Hpos _]. apply N.ltb_lt in Hpos.
-  rewrite log_names, (kept_le rotnum Hcap).
-  set (g := gen_log name compress). set (l := map g (range0 rotnum)).
+  destruct (log_names name compress rotnum) as [v [Hbuild Hrep]].
+  rewrite Hbuild. rewrite (kept_le rotnum Hcap) in Hrep.
+  set (g := gen_log name compress) in *. set (l := map g (range0 rotnum)) in *.
   assert (Hlen : length l = S (N.to_nat rotnum)) by (unfold l; rewrite map_length, range0_length; reflexivity).
+  rewrite (shift_loop_vrep v l Hrep), (vrep_fuel v l Hrep).
   destruct (shift_loop_ok l (NoDup_family g rotnum (gen_log_inj name compress))
                           (N.to_nat rotnum) (length l) d) as [d1 [Hrun Hsh]]; [lia|lia|].
   rewrite N2Nat.id in Hrun. rewrite Hrun. cbn [res_map].
@@ -106,7 +108,9 @@ Lemma rotate_oob : forall name rotnum append compress force d,
   rotate name rotnum append compress force d = OOB.
 Proof.
   intros name rotnum append compress force d Hcap Hrot.
-  unfold rotates in Hrot. unfold rotate. rewrite Hrot. rewrite log_names.
+  unfold rotates in Hrot. unfold rotate. rewrite Hrot.
+  destruct (log_names name compress rotnum) as [v [Hbuild Hrep]]. rewrite Hbuild.
+  rewrite (shift_loop_vrep v _ Hrep), (vrep_fuel v _ Hrep).
   rewrite shift_loop_oob; [reflexivity| | |].
   - rewrite map_length, range0_length. unfold kept, cap in *. lia.
   - unfold cap in *. lia.
@@ -133,9 +137,11 @@ Proof.
   intros name rotnum d Hcap Hpos.
   unfold initialise. rewrite orb_true_r. cbn [andb].
   replace (0 <? rotnum) with true by (symmetry; apply N.ltb_lt; exact Hpos).
-  rewrite db_names, idx_names, (kept_le rotnum Hcap).
-  set (gd := gen_db name). set (gi := gen_idx name).
-  set (dbl := map gd (range0 rotnum)). set (idl := map gi (range0 rotnum)).
+  destruct (db_names name rotnum) as [vd [Hbd Hrd]]. destruct (idx_names name rotnum) as [vi [Hbi Hri]].
+  rewrite Hbd, Hbi. rewrite (kept_le rotnum Hcap) in Hrd, Hri.
+  set (gd := gen_db name) in *. set (gi := gen_idx name) in *.
+  set (dbl := map gd (range0 rotnum)) in *. set (idl := map gi (range0 rotnum)) in *.
+  rewrite (shift_loop2_vrep vd dbl vi idl Hrd Hri), (vrep_fuel vd dbl Hrd).
   assert (Hld : length dbl = S (N.to_nat rotnum)) by (unfold dbl; rewrite map_length, range0_length; reflexivity).
   assert (Hli : length idl = S (N.to_nat rotnum)) by (unfold idl; rewrite map_length, range0_length; reflexivity).
   assert (Hdisj : forall x, In x dbl -> ~ In x idl).
@@ -185,7 +191,8 @@ Lemma initialise_oob : forall name rotnum d,
 Proof.
   intros name rotnum d Hcap. unfold initialise. rewrite orb_true_r. cbn [andb].
   replace (0 <? rotnum) with true by (symmetry; apply N.ltb_lt; unfold cap in *; lia).
-  rewrite db_names, idx_names.
+  destruct (db_names name rotnum) as [vd [Hbd Hrd]]. destruct (idx_names name rotnum) as [vi [Hbi Hri]].
+  rewrite Hbd, Hbi. rewrite (shift_loop2_vrep vd _ vi _ Hrd Hri), (vrep_fuel vd _ Hrd).
   rewrite shift_loop2_oob; [reflexivity| | |].
   - rewrite map_length, range0_length. unfold kept, cap in *. lia.
   - unfold cap in *. lia.
